@@ -11,6 +11,7 @@ package kv
 
 import (
 	"context"
+	"sync"
 
 	"github.com/synnaxlabs/x/address"
 	"github.com/synnaxlabs/x/confluence"
@@ -38,7 +39,10 @@ import (
 // with a Get they cannot benefit from.
 type filterPersist struct {
 	confluence.BatchSwitch[TxRequest, TxRequest]
-	db         xkv.DB
+	db xkv.DB
+	// mu serialises the ingress transaction with the start-up recovery transactions
+	// (recovery.go), which decide with the same supersedes rule on the same digests.
+	mu         *sync.Mutex
 	acceptedTo address.Address
 	rejectedTo address.Address
 	Config
@@ -48,10 +52,12 @@ func newFilterPersist(
 	cfg Config,
 	acceptedTo address.Address,
 	rejectedTo address.Address,
+	mu *sync.Mutex,
 ) segment {
 	s := &filterPersist{
 		Config:     cfg,
 		db:         cfg.Engine,
+		mu:         mu,
 		acceptedTo: acceptedTo,
 		rejectedTo: rejectedTo,
 	}
@@ -70,6 +76,7 @@ func (fp *filterPersist) _switch(
 	accepted := TxRequest{Sender: b.Sender, doneF: b.doneF, Context: b.Context, span: b.span}
 	rejected := TxRequest{Sender: b.Sender, Context: b.Context, span: b.span}
 
+	fp.mu.Lock()
 	err := xkv.WithTx(ctx, fp.db, func(txn xkv.Tx) error {
 		for _, op := range b.Operations {
 			sup, supErr := supersedes(ctx, txn, op)
@@ -94,6 +101,7 @@ func (fp *filterPersist) _switch(
 		}
 		return nil
 	})
+	fp.mu.Unlock()
 	accepted.done(err)
 
 	if err == nil && !accepted.empty() {
